@@ -909,6 +909,8 @@ class SQLCache(CacheMixin):
             metadata = json.loads(metadata)
             if metadata.get("status") != "ready":
                 return None
+            if data is None:
+                return None  # metadata-only record (written by store_metadata): there is no data to serve
         except:
             return None
         try:
